@@ -984,7 +984,7 @@ func (p *Parser) parseEachStmt() *ast.EachStmt {
 func (p *Parser) parseBlockStmt() *ast.BlockStmt {
 	stmt := &ast.BlockStmt{Token: p.curToken}
 
-	for !p.curTokenIs(token.END) {
+	for !p.curTokenIs(token.END) && !p.curTokenIs(token.EOF) && !p.curTokenIs(token.ILLEGAL) {
 		block := p.parseStatement()
 
 		if block != nil {
